@@ -29,7 +29,7 @@ func init() {
 		Families: []family{
 			{Name: "dir-histories", Fn: scnC20, Weight: 1},
 		},
-		Rule: "initial directory with 0-12 rotated files audit.log.N (N up to 999, non-contiguous, incl. >= 10 files and two/three-digit suffixes) plus the live file, 0-5 lines each (one in twelve ending in a carriage return of its own), optional partial tail; " +
+		Rule: "initial directory with 0-12 rotated files audit.log.N (N up to 999, non-contiguous, incl. >= 10 files and two/three-digit suffixes) plus the live file (absent in one start in eight, then created during or after the initial read), 0-5 lines each (one in twelve ending in a carriage return of its own), optional partial tail; " +
 			"then 1-25 operations from {append k complete lines, append a prefix of a line, complete it, rotate (rename chain + create), truncate to zero, append a line longer than the read buffer, an event (write/create/chmod/remove/rename) for another file of the directory incl. rotated siblings audit.log.N / .gz / .bak, an attribute change (chmod) of the live file, one failing open (EMFILE) followed by the reader's own retry}, " +
 			"each followed by its file-system events and a run to quiescence; read-buffer knob {16,64,4096}; a consumer task drains Lines(); " +
 			"non-trivial = at least one rotation or truncation or partial append and at least 2 rotated files; distinct = distinct (history hash, schedule hash)",
@@ -283,6 +283,27 @@ func scnC20(rc *RunCtx) {
 		sent := &doneFlag{}
 		rc.Sim.Spawn("world.fsevent-early", func() {
 			simrt.ChanSend(events, fsnotify.Event{Name: live, Op: fsnotify.Write}, "world.fsevent")
+			sent.set(nil)
+		})
+		settle()
+		rc.Sim.Frozen = nil
+		if !settle() || !sent.v {
+			rc.Abort("early event not consumed: %v", rc.Sim.Live())
+			return
+		}
+	}
+	// started in the middle of a rotation: only rotated files are there, and the new live file is
+	// created (its CREATE event delivered) while the initial read is still in progress
+	if !hasLive && len(expect) > 0 && t.Choose(3, "early.create") == 1 {
+		stallAt := t.Choose(len(expect), "early.stall.at")
+		rc.Sim.Frozen = func(name string) bool { return name == "consumer" && len(sink.got) >= stallAt }
+		settle()
+		mfs.files[live] = nil
+		ops = append(ops, "create-during-initial-read")
+		rc.Sim.Count("fs.create_during_initial_read")
+		sent := &doneFlag{}
+		rc.Sim.Spawn("world.fsevent-early", func() {
+			simrt.ChanSend(events, fsnotify.Event{Name: live, Op: fsnotify.Create}, "world.fsevent")
 			sent.set(nil)
 		})
 		settle()
